@@ -20,7 +20,7 @@ def loaded_stage(ctx, how="retrieve_stage", nth=0):
 
 
 def loaded_execution(ctx, nth=0):
-    objs = [e.data["obj"] for e in ctx.st.effects if e.kind == "load" and e.data["kind"] == "execution"]
+    objs = [e.data["obj"] for e in ctx.st.effects if e.kind == "load" and e.data["kind"] == "execution" and e.data["how"] == "retrieve"]
     return objs[nth] if len(objs) > nth else None
 
 
@@ -499,6 +499,23 @@ def _run_task_repush(ctx):
     return goals
 
 
+def _polling_repush(ctx):
+    """C14: a task that reports it is still running is polled again with the very same message -- in particular the
+    polling re-push does not spend the transient-retry budget (attempts unchanged)."""
+    I = ctx.I
+    msg = ctx.extra["message"]
+    goals = []
+    for t in P.committed_txns(ctx):
+        if not _run_task_t1_exempt(ctx, t):
+            continue
+        m2 = txn_pushes(t)[0].data["msg"]
+        same = isinstance(m2, SObj) and m2.oid == msg.oid
+        truthy, _mid = P.msg_id_truthy(ctx)
+        goals.append((f"txn{t.tid}.attempts-unchanged", TRUE if same else z3.Or(z3.Not(truthy), z3.And(
+            I.ops.eq(I.getattr(m2, "attempts"), I.getattr(msg, "attempts")), I.ops.eq(I.getattr(m2, "task_id"), I.getattr(msg, "task_id"))))))
+    return goals
+
+
 def process_result_unit():
     def build(ctx):
         h, msg, rec = _rt_env(ctx)
@@ -509,6 +526,7 @@ def process_result_unit():
 
     obls = _common_helper_obls("process_result", ("CompleteTask", "RunTask", "JumpToStage"), allow_none=True, t1_exempt=_run_task_t1_exempt)
     obls.append(Obl("C14/repush/process_result", _run_task_repush, when="any"))
+    obls.append(Obl("C14/polling-keeps-the-message", _polling_repush, when="any"))
     obls.append(Obl("C01/T1x/process_result", _run_task_repush, when="any"))
     return _helper_unit("L2/RunTask.process_result", H + "run_task.handler:RunTaskHandler._process_result_safely", build, obls)
 
@@ -1083,9 +1101,29 @@ def _ss_plan_commit(ctx):
     return goals
 
 
+def _ss_bypass_consumed(ctx):
+    """C03: the jump bypass is one-shot -- no commit of the start handler leaves _jump_bypass set in the durable context
+    of the stage it handles (otherwise a later, ordinary start of that stage would skip its join condition)."""
+    from pyvc.ops import val_truthy
+
+    I = ctx.I
+    stage = loaded_stage(ctx)
+    goals = []
+    if stage is None:
+        return goals
+    key = I.ops.lit("_jump_bypass").t
+    for n, (e, g) in enumerate(P.stores(ctx)):
+        if not (isinstance(e.data.get("stage"), SObj) and e.data["stage"].oid == stage.oid):
+            continue
+        snap = e.data["snap"]
+        goals.append((f"store{n}", z3.Not(z3.And(z3.Select(snap["ctx_has"], key), val_truthy(z3.Select(snap["ctx_vals"], key))))))
+    return goals
+
+
 def start_stage():
     obls = [
         Obl("C03/handler/dominated-by-READY", _ss_ready, when="any"),
+        Obl("C03/handler/bypass-consumed", _ss_bypass_consumed, when="any"),
         Obl("C04/claim-first", _ss_claim_first, when="any"),
         Obl("C04/loser-silent", _ss_loser_silent, when="any"),
         Obl("C02/once-per-iteration/StartStage", _ss_claim_first, when="any"),
@@ -1276,7 +1314,10 @@ def cancel_workflow():
 
 
 def _rearm_allowed(ctx, e, cur, new):
-    # RestartStage is one of the two explicit re-arm sites of C06: any status -> NOT_STARTED for stage and tasks
+    # RestartStage is one of the two explicit re-arm sites of C06: any status -> NOT_STARTED for stage and tasks, and the
+    # finished workflow of the restarted stage goes back to RUNNING
+    if e.kind == "update_workflow":
+        return z3.And(is_complete(ctx.I, cur), new == status(ctx.I, "RUNNING"))
     return new == status(ctx.I, "NOT_STARTED")
 
 
@@ -2400,3 +2441,138 @@ def units_for(prop: str):  # noqa: F811
             u.name = f"{prop}:{u.name}"
             out.append(u)
     return out
+
+
+# ----------------------------------------------------------------------------- JumpToStage._handle_with_retry (C15 increment, C06 forced marks, C03 bypass writer)
+def jump_handle_registry():
+    from pyvc.typesys import fresh_value
+    from pyvc.values import SBool, SModel, fresh_bool
+
+    reg = jump_registry(contract_apply=True)
+
+    def stage_list(name):
+        def f(I, a, k):
+            n = T._counter(I, "trav_n")
+            lst = fresh_value(I.st, I.typer, ("list", ("obj", "StageExecution")), f"{name}{n}", det=True)
+            I.st.emit("traversal", fn=name, args=list(a), result=lst)
+            return lst
+        return f
+
+    TR = H + "jump_to_stage.traversal:"
+    for fn in ("get_resettable_downstream_stages", "get_downstream_stages", "get_skipped_stages", "get_skippable_downstream_stages"):
+        reg.contracts[TR + fn] = stage_list(fn)
+        reg.contracts[H + "jump_to_stage.handler:" + fn] = stage_list(fn)
+
+    def check_budget(I, a, k):
+        b = fresh_bool("within_budget")
+        I.st.emit("budget_check", result=b)
+        return SBool(b)
+
+    reg.contracts["*._check_jump_count"] = check_budget
+
+    def partial(I, a, k):
+        fn = a[0]
+        kw = dict(k)
+
+        def call(I2, a2, k2):
+            return I2.call(fn, list(a[1:]) + list(a2), dict(kw, **k2))
+
+        m = SModel(call, None, "partial:" + getattr(fn, "name", "?"))
+        return m
+
+    reg.externals["functools:partial"] = partial
+    return reg
+
+
+def _jump_post(ctx):
+    """Accepted jump: exactly one atomic application whose follow-on message is StartStage(target); the target mutation
+    re-arms the target and stores _jump_count = source count + 1 and _jump_bypass; unless it is a self loop the source
+    mutation stores the same count; forward jumps force-mark as SKIPPED only stages that were loaded NOT_STARTED (a
+    finished stage is never overwritten); _jump_bypass is set on the target only."""
+    from pyvc.values import VAL, SModel
+    from pyvc.ops import val_truthy
+
+    I = ctx.I
+    if ctx.exc is not None:
+        return []
+    aj = [e for e in ctx.st.effects if e.kind == "apply_jump"]
+    bc = [e for e in ctx.st.effects if e.kind == "budget_check"]
+    goals = []
+    if not aj:
+        return goals
+    goals.append(("one-application", z3.BoolVal(len(aj) == 1)))
+    e = aj[0]
+    pushes_ = I.concrete_items(e.data["pushes"])
+    if bc:
+        goals.append(("budget-checked-first", bc[0].data["result"]))
+    muts = e.data["mutations"]
+    segs = I.ops.segments(muts)
+    conc = [x for s in segs if isinstance(s, tuple) for x in s[1]]
+    symb = [s for s in segs if not isinstance(s, tuple)]
+    ex = loaded_execution(ctx)
+    if len(pushes_) == 1 and I.class_of(pushes_[0]).name == "StartStage" and bc:
+        # the accepted jump
+        msg = ctx.extra["message"]
+        stages = I.getattr(ex, "stages")
+        # forced SKIPPED marks only on NOT_STARTED stages
+        for n, s in enumerate(symb):
+            fn = s.mapv.items[1] if hasattr(s.mapv, "items") else None
+            if isinstance(fn, SModel) and "reset_stage_to_skipped" in fn.name:
+                sarr = I._elem_array(s.lid, "status", I.typer.sort_of(("enum", WS)))
+                goals.append((f"skip-mark{n}.only-not-started", z3.Implies(z3.And(s.g >= 0, s.g < s.hi, s.cond), I._select(sarr, s.pidx + (s.g,)) == status(I, "NOT_STARTED"))))
+                skl = [t for t in ctx.st.effects if t.kind == "traversal" and t.data["fn"] == "get_skipped_stages"]
+                goals.append((f"skip-mark{n}.from-skipped-set", z3.BoolVal(bool(skl) and skl[0].data["result"].lid == s.lid)))
+        # the last concrete mutations are (source, if not a self loop) and target
+        if conc:
+            tgt_mut = conc[-1]
+            probe = T.new_symbolic(I, "StageExecution", "probe_target")
+            I.call(tgt_mut.items[1], [probe], {})
+            pc_ = I.st.dicts[I.getattr(probe, "context").did]
+            key = I.ops.lit("_jump_count").t
+            cnt_src = [t for t in ctx.st.effects if t.kind == "load"]
+            goals.append(("target-rearmed", I.getattr(probe, "status").t == status(I, "NOT_STARTED")))
+            goals.append(("target-gets-bypass", z3.And(z3.Select(pc_.has, I.ops.lit("_jump_bypass").t), val_truthy(z3.Select(pc_.vals, I.ops.lit("_jump_bypass").t)))))
+            goals.append(("target-count-set", z3.Select(pc_.has, key)))
+            ctx.extra["target_count"] = z3.Select(pc_.vals, key)
+            its = I.st.index_terms.get(stages.lid, [])
+            if its:
+                w = its[0]
+                # the source's count as loaded (pristine arrays: the handler may since have written the same row as target)
+                src_has = I._select(I._pristine(I._elem_array(stages.lid, "context.has", z3.ArraySort(z3.IntSort(), z3.BoolSort()))), w)
+                src_vals = I._select(I._pristine(I._elem_array(stages.lid, "context.vals", z3.ArraySort(z3.IntSort(), VAL))), w)
+                src_cnt = z3.If(z3.Select(src_has, key), VAL.vi(z3.Select(src_vals, key)), 0)
+                int_typed = z3.Implies(z3.Select(src_has, key), VAL.is_VInt(z3.Select(src_vals, key)))
+                goals.append(("target-count-is-source-count-plus-one", z3.Implies(int_typed, z3.Select(pc_.vals, key) == VAL.VInt(src_cnt + 1))))
+            goals.append(("follow-on-is-start-of-target", I.ops.eq(I.getattr(pushes_[0], "stage_id"), tgt_mut.items[0])))
+            for n, m in enumerate(conc[:-1]):
+                pr = T.new_symbolic(I, "StageExecution", f"probe{n}")
+                I.call(m.items[1], [pr], {})
+                d = I.st.dicts[I.getattr(pr, "context").did]
+                byp = I.ops.lit("_jump_bypass").t
+                h0 = z3.Array(f"probe{n}.context.has", z3.IntSort(), z3.BoolSort())
+                goals.append((f"mutation{n}.does-not-set-bypass", z3.Implies(z3.Select(d.has, byp), z3.Select(h0, byp))))
+                goals.append((f"mutation{n}.count-equals-target-count", z3.Implies(z3.Select(d.has, key) if True else TRUE,
+                              z3.Or(z3.Select(d.vals, key) == ctx.extra["target_count"],
+                                    z3.And(z3.Select(h0, key), z3.Select(d.vals, key) == z3.Select(z3.Array(f"probe{n}.context.vals", z3.IntSort(), VAL), key))))))
+    return goals
+
+
+def jump_handle_unit():
+    from pyvc.verify import Unit
+    from .common import STATUS_NAMES
+
+    def run(ctx):
+        I = ctx.I
+        h = _jump_handler(ctx)
+        msg = T.new_symbolic(I, "JumpToStage", "message")
+        ctx.extra["message"] = msg
+        ctx.args["message"] = msg
+        return I.call(I.getattr(h, "_handle_with_retry"), [msg], {})
+
+    return Unit(prop="*", name="L2/JumpToStage._handle_with_retry", func=JH + "._handle_with_retry", params=[], names=STATUS_NAMES,
+                registry=jump_handle_registry(), replayable=False, run=run, max_paths=20000,
+                obligations=[Obl("C15/increment", _jump_post, when="any"), Obl("C06/forced-marks/JumpToStage", _jump_post, when="any"),
+                             Obl("C03/bypass-writer/JumpToStage", _jump_post, when="any")])
+
+
+ALL.append(jump_handle_unit)
